@@ -329,7 +329,7 @@ def r04_ef(prog: Program, chk: Check) -> None:
             ok = bool(rets) and isinstance(rets[-1].value, ast.Call) and last_attr(rets[-1].value) == "unify_bounds_maps"
         chk.ob("R04.e", f"{m}::{q}::forall-members", ok, prog.site(m, fn), "the union-on-the-right arm must check every member of `other`, return the member's error at once and accept after the loop")
     fn = prog.func("value", "MultiValuedValue.can_assign")
-    need_locals(fn, "other", "bounds_maps")
+    need_locals(fn, "other")
     ok = False
     for lp in walk_no_nested(fn):
         if isinstance(lp, ast.For) and isinstance(lp.target, ast.Name) and norm(lp.iter) in ("my_vals", "self.vals"):
@@ -339,8 +339,10 @@ def r04_ef(prog: Program, chk: Check) -> None:
             par = parent(lp)
             blk = par.orelse if lp in getattr(par, "orelse", []) else par.body  # type: ignore[union-attr]
             after = blk[blk.index(lp) + 1 :]
-            rej = [s for s in after if isinstance(s, ast.If) and norm(s.test) == "not bounds_maps" and isinstance(s.body[-1], ast.Return) and "CanAssignError" in norm(s.body[-1])]
-            acc = [s for s in after if isinstance(s, ast.Return) and isinstance(s.value, ast.Call) and last_attr(s.value) == "intersect_bounds_maps"]
+            # the accumulator of accepted results: a list appended to in the non-error branch
+            accs = {norm(c.func.value) for c in calls_in(lp, "append") if isinstance(c.func, ast.Attribute)}  # type: ignore[attr-defined]
+            rej = [s for s in after if isinstance(s, ast.If) and norm(s.test) in {f"not {a}" for a in accs} and isinstance(s.body[-1], ast.Return) and "CanAssignError" in norm(s.body[-1])]
+            acc = [s for s in after if isinstance(s, ast.Return) and isinstance(s.value, ast.Call) and last_attr(s.value) == "intersect_bounds_maps" and s.value.args and norm(s.value.args[0]) in accs]
             ok = bool(calls) and no_early and bool(rej) and bool(acc)
     chk.ob("R04.f", "value::MultiValuedValue.can_assign::exists-member", ok, prog.site("value", fn), "the non-union arm must try every own member against `other`, reject iff none accepted and accept otherwise")
 
